@@ -40,6 +40,7 @@ type Exec struct {
 	noSafety          bool
 	iterStart         map[*ssa.BasicBlock]*State
 	auxTypes          map[string]types.Type
+	nameAs            string
 	appendMode        int
 	memo              map[string]*memoEntry
 	groups            map[string][][]Term
